@@ -59,6 +59,7 @@ typedef struct world {
 	msg_rec *msgs;
 	int     nmsgs;
 	int     teardown;             /* root reached teardown: traffic oracles off */
+	int     msg_oracle;           /* C05 ledger violations are reported (only the C05 check) */
 } world;
 extern world W;
 
